@@ -91,6 +91,11 @@ class Emitter:
         T = self.term
         L = lambda x: lconst_e(shim.E.lift(x), self.lc)
         if op == 'var':
+            if a[0] == 'NaN':
+                # the shim's marker for torch.full_like(x, nan): the value a routine returns to FLAG an input it cannot solve
+                # (e.g. refract under total internal reflection).  C05 speaks about valid inputs only, where the selecting
+                # `where` takes the other branch; the flagged branch is a constant there and contributes no gradient.
+                return '(Cst 0)'
             if a[0] not in self.index:
                 raise shim.TraceError('free variable %s is not a parameter of this entry point' % a[0])
             return '(Var %d)' % self.index[a[0]]
